@@ -1,10 +1,14 @@
 #!/usr/bin/env python3
-"""Round 3: copies the confirmed area-based changes (/tmp/wt/R3<t>-out) into seeded/<property>-<n>/ (n from 5 up)."""
-import json, os, shutil, glob
+"""Rounds 3 and 4: copies the confirmed area-based (R3A..J) / scenario-based (R4a..h) changes from /tmp/wt/R<k><t>-out into
+seeded/<property>-<n>/ (n from 5 up).  usage: add_seeded_r3.py [3|4]"""
+import json, os, shutil, glob, sys
+ROUND = sys.argv[1] if len(sys.argv) > 1 else "3"
+TAGS = "ABCDEFGHIJ" if ROUND == "3" else "abcdefgh"
+KIND = {"3": "third round, area", "4": "fourth round, usage scenario", "5": "fifth round, kind of edit"}[ROUND]
 SRC, DST = "/tmp/wt", "/verif/seeded"
 added = []
-for t in "ABCDEFGHIJ":
-    out = f"{SRC}/R3{t}-out"
+for t in TAGS:
+    out = f"{SRC}/R{ROUND}{t}-out"
     for n in (1, 2, 3):
         patch = f"{out}/patch{n}.diff"
         if not os.path.exists(patch):
@@ -15,7 +19,7 @@ for t in "ABCDEFGHIJ":
             continue
         if not conf.get("ok"):
             continue
-        pid = meta["property"]
+        pid = meta["property"][:3]
         # already there?
         existing = [d for d in glob.glob(f"{DST}/{pid}-*") if os.path.exists(d + "/patch.diff") and open(d + "/patch.diff").read() == open(patch).read()]
         if existing:
@@ -35,7 +39,7 @@ for t in "ABCDEFGHIJ":
             "breaks": meta.get("summary", ""),
             "needs_to_manifest": meta.get("needs_to_manifest", ""),
             "demo": {"crate": conf.get("crate"), "file": "demo" + ext, "how": meta.get("demo_cmd", "")},
-            "produced_by": f"independent sub-agent (third round, area {t}): given the text of all properties touching one area of the code and a scratch worktree, nothing from /verif; asked for changes that need a specific history / boundary / schedule to manifest",
+            "produced_by": (f"independent sub-agent (third round, area {t}): given the text of all properties touching one area of the code and a scratch worktree, nothing from /verif; asked for changes that need a specific history / boundary / schedule to manifest" if ROUND == "3" else (f"independent sub-agent (fifth round, kind of edit {t}): given a KIND OF EDIT a maintainer might make (performance optimisation in board / engine, numeric types and boundaries, defensive checks, refactoring for readability, small feature additions, threads and timing, text-format round trips), the properties it may touch in compact form and a scratch worktree, nothing from /verif; asked for honest-looking edits that misbehave only for an uncommon input class, boundary, history or usage pattern" if ROUND == "5" else "") or f"independent sub-agent (fourth round, usage scenario {t}): given a usage scenario (state carried across searches, one board used for a long time, limits and time management, draws and evaluation, streaming input, UCI text, tables, search correctness), the properties it touches and a scratch worktree, nothing from /verif; asked for changes that only misbehave under a specific usage pattern"),
             "agent_ran": meta.get("ran", []),
             "confirmed_here": {
                 "cmd": f"bin/confirm_mutant <worktree> {out} {n}",
@@ -46,5 +50,5 @@ for t in "ABCDEFGHIJ":
             },
             "detection": {"cmd": f"git -C /repo apply seeded/{key}/patch.diff && VERIF_NO_REGRESS=1 bin/check {pid} quick ; git -C /repo checkout -- ."},
         }, open(f"{d}/meta.json", "w"), indent=1)
-        added.append((f"R3{t}-{n}", key))
+        added.append((f"R{ROUND}{t}-{n}", key))
 print(added)
